@@ -28,7 +28,8 @@ def cases(tier, seed):
     out = D.spec_cases(tier, seed, CLASSES, 300, 1600, "c09")
     # appended classes of vlib/gen2.py (added after the generator freeze; see DESIGN.md 2.2)
     from vlib import gen2
-    return out + gen2.appended(tier, seed, "c09", ['A1', 'A4', 'A3', 'A4'], 60, 360)
+    return out + gen2.appended(tier, seed, "c09", ['A1', 'A4', 'A3', 'A4'], 60, 360) + \
+        gen2.appended(tier, seed, "c09r", ['A8'], 40, 160)
 
 
 def run_case(case):
